@@ -241,6 +241,12 @@ theorem exec_sound (P : Params) (s : St) (e : Ev) (s' : St) (hd : DInv s) (h : e
     · next hph hl => cases h; exact Step.destroyEnd hph hl
     · cases h
 
+theorem star_append {σ ε : Type} {St : σ → ε → σ → Prop} {s s1 s2 : σ} {t1 t2 : List ε}
+    (h1 : Star St s t1 s1) (h2 : Star St s1 t2 s2) : Star St s (t1 ++ t2) s2 := by
+  induction h1 with
+  | refl => exact h2
+  | cons hs _ ih => exact Star.cons hs (ih h2)
+
 /-- all invariants together -/
 structure Inv (P : Params) (s : St) : Prop where
   h : HInv s
@@ -299,5 +305,47 @@ theorem carved_mono_star (P : Params) (hP : P.OK) {s : St} {tr : List Ev} {s' : 
   induction hs with
   | refl => exact hc
   | cons h1 _ ih => exact ih (inv_step P hP _ _ _ hi h1) (carved_mono P hi.p h1 h hc)
+
+/-- where a carved header can be, read off the real state (no ghost field) -/
+inductive CPlace
+  | lifo                  -- in a bucket on `bucket_lifo`
+  | part                  -- in `partial_bucket`
+  | loc (a : Actor)       -- in the local pool of actor `a`
+  | held (a : Actor)      -- in flight inside a call of actor `a` (bucket being taken, carved, returned)
+  | out                   -- handed out (a live descriptor / stack)
+deriving DecidableEq
+
+def CAt (s : St) : CPlace → Hdr → Prop
+  | .lifo, h => ∃ b, b ∈ s.bucketLifo ∧ h ∈ b
+  | .part, h => h ∈ s.part
+  | .loc a, h => ∃ l, s.loc a = some l ∧ ((∃ b, b ∈ l.full ∧ h ∈ b) ∨ h ∈ l.cur)
+  | .held a, h => h ∈ heldHdrs (s.pc a)
+  | .out, h => h ∈ s.out
+
+/-- where a page can be -/
+inductive GPlace
+  | lifo | empty | held (a : Actor) | released
+deriving DecidableEq
+
+def PgAt (s : St) : GPlace → Nat → Prop
+  | .lifo, p => p ∈ s.pageLifo
+  | .empty, p => p ∈ s.emptyPages
+  | .held a, p => heldPage (s.pc a) = some p
+  | .released, p => p ∈ s.released
+
+theorem cat_own {P : Params} {s : St} (hi : Inv P s) (w : CPlace) (h : Hdr) :
+    CAt s w h ↔ s.own h = (match w with
+      | .lifo => Place.lifo | .part => Place.part | .loc a => Place.loc a | .held a => Place.held a | .out => Place.out) := by
+  cases w with
+  | lifo => simp only [CAt, ← hi.h.lifo, List.mem_flatten]
+  | part => simp only [CAt, ← hi.h.part]
+  | loc a =>
+    simp only [CAt, ← hi.h.loc]
+    cases hl : s.loc a with
+    | none => simp [locHdrs]
+    | some l => simp [locHdrs, List.mem_flatten]
+  | held a => simp only [CAt, ← hi.h.held]
+  | out => simp only [CAt, ← hi.h.out]
+
 
 end ArgoVerif.Model.MemPoolConc
